@@ -1,6 +1,7 @@
 package sym
 
 import (
+	"go/token"
 	"fmt"
 	"go/types"
 	"math/big"
@@ -821,6 +822,13 @@ func writtenFreeVars(fn *ssa.Function) map[*ssa.FreeVar]bool {
 		}
 		return nil
 	}
+	// the captured variable a map value was loaded from
+	mapRoot := func(v ssa.Value) *ssa.FreeVar {
+		if u, ok := v.(*ssa.UnOp); ok && u.Op == token.MUL {
+			return root(u.X, 0)
+		}
+		return root(v, 0)
+	}
 	for _, b := range fn.Blocks {
 		for _, ins := range b.Instrs {
 			switch x := ins.(type) {
@@ -829,7 +837,10 @@ func writtenFreeVars(fn *ssa.Function) map[*ssa.FreeVar]bool {
 					out[fv] = true
 				}
 			case *ssa.MapUpdate:
-				// a captured map is updated in place: the map value itself is opaque to the executor
+				// a captured map updated in place: its contents after the loop are unknown
+				if fv := mapRoot(x.Map); fv != nil {
+					out[fv] = true
+				}
 			case ssa.CallInstruction:
 				for _, a := range x.Common().Args {
 					if fv := root(a, 0); fv != nil {
